@@ -13,12 +13,12 @@ import (
 
 // sinkState is what a job knows about its sink and what it fed into it.
 type sinkState struct {
-	sink    string
-	path    string
-	tris    []*sdf.Triangle3 // items written, in the order of the item ids
-	lines   []*sdf.Line2
-	ordered bool // single producer: the sequence must be preserved
-	strict  bool // check the format clauses of C13/C15 too (always cheap, always on)
+	sink     string
+	path     string
+	tris     []*sdf.Triangle3 // items written, in the order of the item ids
+	lines    []*sdf.Line2
+	ordered  bool // single producer: the sequence must be preserved
+	exactDXF bool // C15: DXF coordinates must parse back to exactly the input
 
 	outTris  []*sdf.Triangle3 // what ToTriangles returned
 	outLines []*sdf.Line2
@@ -198,8 +198,10 @@ func (s *sinkState) checkDXF() Check {
 		return bad("dxf-entities", "dxf holds entities other than LINE: %v", d.OtherEntities[:min(4, len(d.OtherEntities))])
 	}
 	want := make([]string, len(s.lines))
+	want16 := make([]string, len(s.lines))
 	for i, l := range s.lines {
 		want[i] = lineKeyDXFInput(l)
+		want16[i] = lineKeyDXFInput16(l)
 	}
 	got := make([]string, len(d.Lines))
 	for i := range d.Lines {
@@ -212,8 +214,16 @@ func (s *sinkState) checkDXF() Check {
 		}
 		got[i] = lineKeyDXFOut(l)
 	}
-	if ok, msg := compareKeys(want, got, s.ordered); !ok {
+	// conservation: every segment is there, identified at the 16 decimal
+	// places the DXF writer emits
+	if ok, msg := compareKeys(want16, got, s.ordered); !ok {
 		return bad("sink-content", "dxf lines: %s", msg)
+	}
+	// C15 "exact coordinates": the decimal text must parse back to the input
+	if s.exactDXF {
+		if ok, msg := compareKeys(want, got, s.ordered); !ok {
+			return bad("dxf-precision", "dxf coordinates are written with 16 decimal places and do not parse back to the exact input: %s", msg)
+		}
 	}
 	return okCheck
 }
